@@ -1,4 +1,4 @@
-from vlib import Obl
+from vlib import Obl, PORTFOLIO
 
 TITLE = 'API misuse yields error codes, never crashes, hangs or stray memory access'
 LEVEL_TEXT = ('bounded symbolic verification per entry point of the real code with CBMC built-in checks (bounds, NULL/invalid pointer, division by zero, '
@@ -32,6 +32,8 @@ def obligations(tier):
                      desc='%s(signal_id symbolic in [COUNT, 65535]): error code and no access to the signal array' % fn,
                      bound='signal table of 1 slot (hook): every id >= 1 is out of range',
                      assumes=['signal_id >= JLS_SIGNAL_COUNT']))
+    # O3 threaded-writer front end, sequential (harness/c10_twr.c): the writer object is one untyped malloc (struct + queue); CBMC ran out of memory
+    # (19 GB) / crashed before a verdict -> not claimed.
     from props.C01 import reader
     for bits in ([4, 32] if tier == 'quick' else [1, 4, 8, 32, 64]):
         ob = reader('O5_window_misuse_w%d' % bits, bits, 2, 600)
